@@ -259,6 +259,24 @@ def run(cx: Cx):
     check_atomic(cx, move.qualname, ['ComponentNotFoundError'])
     check_atomic(cx, add_agent.qualname, ['Exception'])
 
+    # ------------------------------------------------------------ R-FWD: the wrapping mode asked for is the wrapping mode used
+    from .common import check_forwarding_chain
+    sw = cx.prog.cls(SW)
+    nsub = 0
+    for subc in cx.prog.subclasses(sw, strict=True):
+        own = subc.methods.get('__init__')
+        if own and 'wrap_env' in own[0].params + own[0].kwonly:
+            nsub += 1
+            check_forwarding_chain(cx, subc.qualname, ['wrap_env'], SW + '.__init__')
+    cx.floor('world subclasses whose constructor takes wrap_env', nsub, 1)
+    for s_ in cx.effects.sites_of((SW, 'wrap_env')):
+        v = s_.ev.data.get('value')
+        if s_.owner_q == SW + '.__init__' and v == Sym('wrap_env'):
+            cx.ok('R-FWD', 'SpaceWorld.__init__ stores the wrap_env it was given', where=s_.where, function=s_.fn.qualname)
+        else:
+            cx.violation('R-FWD', s_.fn.qualname, 'wrap_env-stored-as-given',
+                         f"{s_.describe()}: the wrapping mode is not the constructor argument", where=s_.where)
+
     # ------------------------------------------------------------ R-PAIR: leaving drops the position
     rself = Sym(rem_agent.params[0])
     a_id = Sym(rem_agent.params[1])
@@ -274,11 +292,30 @@ def run(cx: Cx):
                               (isinstance(det[0].data.get('recv'), App) and det[0].data['recv'].fn.endswith('get_agent'))):
             cx.ok('R-PAIR', 'remove_agent detaches the PositionComponent of the leaving agent', where=cx.where(rem_agent, det[0].line),
                   function=rem_agent.qualname)
+        elif not det and _position_tested_absent(p, rself, a_id):
+            cx.ok('R-PAIR', 'remove_agent: nothing to detach on a path that found the leaving agent without a PositionComponent',
+                  where=cx.where(rem_agent), function=rem_agent.qualname)
         else:
             cx.violation('R-PAIR', rem_agent.qualname, 'leaving-drops-the-position',
                          "SpaceWorld.remove_agent: a success path does not detach the leaving agent's PositionComponent",
                          where=cx.where(rem_agent), path=p.lines())
     cx.floor('SpaceWorld.remove_agent success paths', n, 1)
+
+
+def _position_tested_absent(p, rself, a_id) -> bool:
+    """The path tested `PositionComponent in <the leaving agent>` and did not take the present branch."""
+    from sa.terms import atoms_of, AIn
+    for a in atoms_of(p.cond):
+        if not (isinstance(a, AIn) and a.x == Sym(PC)):
+            continue
+        c = strip_versions(a.container)
+        if isinstance(c, Attr) and c.name == 'components':
+            c = strip_versions(c.base)
+        leaving = c == Sub(Attr(rself, 'agents'), a_id) or (isinstance(c, App) and c.fn.endswith('get_agent') and c.args[:2] == (rself, a_id)) or \
+            (isinstance(c, App) and c.fn in ('.get', '.pop') and c.args[:2] == (Attr(rself, 'agents'), a_id))
+        if leaving and implies(p.cond, a) is not None:
+            return True
+    return False
 
 
 def compare_inside(S, self_s, vals):
